@@ -51,9 +51,15 @@ def logPrims : Prims LogW where
   cmExit w i c :=
     let name := match c with | some c => c.name | none => "None"
     let w := { w with log := s!"ex{i}:{name}" :: w.log }
-    match lookupD [] i w.ex with
+    match (lookupD [] i w.ex : List Val) with
     | [] => (w, .none)
+    | Val.int 9 :: rest =>
+      -- script entry `L`: this `__exit__` first runs the program's helper `xl()` - a Python frame of its own
+      -- whose loop `continue`s through a try/finally twice (CONTINUE_LOOP, END_FINALLY in ITS Vm) - and answers None
+      ({ w with ex := setKey i rest w.ex, log := "e0" :: "e0" :: w.log }, .none)
     | a :: rest => ({ w with ex := setKey i rest w.ex }, a)
+  yielded w v :=
+    { w with log := (match v with | .int n => s!"y{n}" | .none => "yNone" | _ => "y?") :: w.log }
 
 /-! ### rendering to Python source, numbering the lines -/
 
@@ -71,6 +77,7 @@ partial def layout (ind ln : Nat) : Stmt → Stmt × List String × Nat
   | .pass _ => (.pass ln, [indentStr ind ++ "pass"], ln + 1)
   | .ev _ i => (.ev ln i, [indentStr ind ++ s!"ev({i})"], ln + 1)
   | .ret _ i => (.ret ln i, [indentStr ind ++ s!"return ev({i})"], ln + 1)
+  | .yieldS _ i => (.yieldS ln i, [indentStr ind ++ s!"yield ev({i})"], ln + 1)
   | .raise _ c => (.raise ln c, [indentStr ind ++ s!"raise {c.name}"], ln + 1)
   | .reraise _ => (.reraise ln, [indentStr ind ++ "raise"], ln + 1)
   | .raiseX _ (.inst c k) => (.raiseX ln (.inst c k), [indentStr ind ++ s!"raise {c.name}({k})"], ln + 1)
@@ -155,6 +162,7 @@ def Instr.text : Instr → String
   | .storeFast v => "STORE_FAST:" ++ v | .deleteFast v => "DELETE_FAST:" ++ v
   | .compareExcMatch => "COMPARE_OP:10" | .buildTuple n => s!"BUILD_TUPLE:{n}"
   | .raiseVarargs n => s!"RAISE_VARARGS:{n}" | .returnValue => "RETURN_VALUE:"
+  | .yieldValue => "YIELD_VALUE:"
 
 def codeText (c : Code) : String :=
   " ".intercalate (c.map fun (i, ln) => s!"{i.text}:{ln}")
@@ -283,6 +291,7 @@ def leaves : List (String × G Stmt) := [
   ("raiseOverflow", pure (.raise 0 .OverflowError)),
   ("raiseException", pure (.raise 0 .Exception)),
   ("return", do let i ← evProbe [.val 7, .val 8]; pure (.ret 0 i)),
+  ("yield", do let i ← evProbe [.val 5, .val 6]; pure (.yieldS 0 i)),
   ("returnRaises", do let i ← evProbe [.raise .ValueError]; pure (.ret 0 i)),
   ("break", pure (.brk 0)),
   ("continue", pure (.cont 0)),
@@ -322,7 +331,7 @@ def wLeaves : Array Nat := weighted (leaves.map (·.1)) leafWeight
 def evResText : EvRes → String
   | .val v => s!"v{v}" | .raise c => "r" ++ c.name
 def exValText : Val → String
-  | .bool true => "T" | .bool false => "F" | .int 1 => "1" | .int 0 => "0" | _ => "N"
+  | .bool true => "T" | .bool false => "F" | .int 1 => "1" | .int 0 => "0" | .int 9 => "L" | _ => "N"
 
 def scriptText (b : B) : String :=
   let ev := ",".intercalate (b.ev.map fun (i, as) => s!"{i}:{".".intercalate (as.map evResText)}")
@@ -332,17 +341,56 @@ def scriptText (b : B) : String :=
 
 def fuel : Nat := 200000
 
+/-- the function is a generator function: some `yield` occurs in its body -/
+def hasYield : Stmt → Bool
+  | .yieldS _ _ => true
+  | .seq a b => hasYield a || hasYield b
+  | .ifS _ _ b o | .whileS _ _ b o | .forS _ _ b o => hasYield b || hasYield o
+  | .tryF _ b f => hasYield b || hasYield f
+  | .tryE _ b _ h1 _ h2 o => hasYield b || hasYield h1 || hasYield h2 || hasYield o
+  | .withS _ _ b => hasYield b
+  | _ => false
+
+/-- a `return`/`continue` reason parked on the value stack by the unwinder (`PUSH(retval); PUSH(Int(why))`):
+the why code 2 / 4 with an int under it (probe values of the composite family avoid 2 and 4) -/
+def parkedOn : List Val → Bool
+  | .int c :: .int d :: rest => ((c == 2 || c == 4) && d != 2 && d != 4) || parkedOn (.int d :: rest)
+  | _ :: rest => parkedOn rest
+  | [] => false
+
+/-- does the run write `vm.retval` (CONTINUE_LOOP, RETURN_VALUE, YIELD_VALUE) while a return/continue is parked? -/
+def clobbersParked {W} (P : Prims W) (code : Code) : Nat → VM W → Bool
+  | 0, _ => false
+  | f+1, vm =>
+    let hit := vm.why == .not && parkedOn vm.stack &&
+      (match code[vm.pc]? with
+       | some (.continueLoop _, _) | some (.returnValue, _) | some (.yieldValue, _) => true
+       | _ => false)
+    if hit then true else
+    match step P code vm with
+    | .next vm' => clobbersParked P code f vm'
+    | .done _ => false
+
+/-- the helper the `L` answer of a probe `__exit__` runs (own frame, own `Vm`) -/
+def helperText : List String :=
+  ["def xl():", "    for x in (1, 2):", "        try:", "            continue", "        finally:", "            ev(0)"]
+
 /-- `wrap` = number of wrapper functions `def g<j>(): return <previous>()` between the module-level
 call and `f` (0: `r = f()`).  The specification's traceback names the line of every active call. -/
 def progCase (label : String) (g : G Stmt) (extraTags : List String := []) (wrap : Nat := 0) : Case :=
   let (s0, b) := g.run {}
-  let (body, text, next) := layout 1 2 s0
+  let (body, text, next0) := layout 1 2 s0
+  let isGen := hasYield body
+  let usesL := b.ex.any fun (_, rs) => rs.contains (.int 9)
+  let helper := if usesL then helperText else []
+  let next := next0 + helper.length
   -- wrapper g_j: `def` on line next + 2(j-1), its `return` on the line after; module call after the last
   let wrapText := (List.range wrap).flatMap fun j =>
     [s!"def g{j+1}():", s!"    return {if j = 0 then "f" else s!"g{j}"}()"]
   let callLine := next + 2 * wrap
   let top := if wrap = 0 then "f" else s!"g{wrap}"
-  let src := "\\n".intercalate (["def f():"] ++ text ++ wrapText ++ [s!"r = {top}()"])
+  let src := "\\n".intercalate (["def f():"] ++ text ++ helper ++ wrapText ++
+    [if isGen then s!"r = drive({top}())" else s!"r = {top}()"])
   -- the calls that are active when f runs, outermost first: (function name, line)
   let calls : List (String × Nat) :=
     ("<module>", callLine) :: ((List.range wrap).reverse.map fun j => (s!"g{j+1}", next + 2 * j + 1))
@@ -387,8 +435,11 @@ def progCase (label : String) (g : G Stmt) (extraTags : List String := []) (wrap
             | some (.unsupported m) => "UNSUPPORTED:" ++ m
             | none => "MODEL-OUT-OF-FUEL"
       (v, codeText code ++ "|" ++ " ".intercalate tr)
+  let clob := match compileFn 1 body with
+    | .ok code => clobbersParked logPrims code 4000 (initVM w0)
+    | .error _ => false
   { input := label ++ " " ++ scriptText b ++ ";src=" ++ src, modelV := modelV, modelR := modelR,
-    specV := specV, tags := extraTags }
+    specV := specV, tags := extraTags ++ (if clob then ["clob"] else []) ++ (if isGen then ["gen"] else []) }
 
 def nontrivialLeaf (l : String) : Bool := l != "ok" && l != "pass"
 
@@ -398,7 +449,7 @@ def depth1 : List Case :=
 
 /-- every depth-1 program again behind two wrapper functions (three active calls in the traceback) -/
 def depth1Wrapped : List Case :=
-  contexts.flatMap fun (cn, c) => leaves.map fun (ln, l) =>
+  contexts.flatMap fun (cn, c) => (leaves.filter (·.1 != "yield")).map fun (ln, l) =>
     progCase s!"d1w:{cn}/{ln}" (c l) (if nontrivialLeaf ln then ["nt"] else []) 2
 
 def depth2 : List Case :=
@@ -456,6 +507,115 @@ def extras : List Case := [
   progCase "x:reraiseInFinally" (do
     let a ← okS; pure (.tryF 0 (.seq a (.raise 0 .OverflowError)) (.reraise 0))) ["nt"]
 ]
+
+/-! ### composite contexts: a reason parked across a finally body × what the finally body does
+
+A program of this family is  `outer( park( P , FIN ) )`:
+* `P`    - the statement that leaves the try body: return / continue / break / raise / yield / fall through;
+* `park` - the try/finally (or `with`) statements it leaves, k = 1 or 2 of them, and which of them has the
+           non-trivial finally body `FIN`;
+* `FIN`  - a finally body: a leaf (ok, continue, break, return, raise, yield, a handled exception) under up to two
+           of the one-hole contexts `finCtxs` (loops with and without else, try/finally body and finally part,
+           try/except body / handler / else, with, if) - so that the finally body runs its own loops with
+           continue / break (JUMP_ABSOLUTE and CONTINUE_LOOP forms), its own try/finally with its own parked
+           return (override), yields (generator frame resumed between park and END_FINALLY), handled
+           exceptions, replacing exceptions, swallowing returns;
+* `outer`- the function body itself, a `for` loop (+else) or a `while` loop around it.
+Probe values avoid 2 and 4 (the why codes) so that parked pairs can be recognised on the model's stack. -/
+
+def finCtxs : List (String × (G Stmt → G Stmt)) := [
+  ("for", fun h => do let i ← itProbe 2; let b ← thenOk h; pure (.forS 0 i b .skip)),
+  ("forE", fun h => do let i ← itProbe 1; let b ← h; let o ← okS; pure (.forS 0 i b o)),
+  ("forElse", fun h => do let i ← itProbe 1; let b ← okS; let o ← thenOk h; pure (.forS 0 i b o)),
+  ("while", fun h => do let i ← evProbe [.val 1, .val 1, .val 0]; let b ← thenOk h; pure (.whileS 0 i b .skip)),
+  ("whileE", fun h => do let i ← evProbe [.val 1, .val 0]; let b ← h; let o ← okS; pure (.whileS 0 i b o)),
+  ("whileElse", fun h => do let i ← evProbe [.val 0]; let b ← okS; let o ← thenOk h; pure (.whileS 0 i b o)),
+  ("tryF.b", fun h => do let b ← thenOk h; let f ← okS; pure (.tryF 0 b f)),
+  ("tryF.f", fun h => do let b ← okS; let f ← thenOk h; pure (.tryF 0 b f)),
+  ("tryE.b", fun h => do let b ← thenOk h; let h1 ← okS; pure (.tryE 0 b (mk1 .Exception) h1 none .skip .skip)),
+  ("tryE.h", fun h => do
+      let h1 ← thenOk h; pure (.tryE 0 (.raise 0 .KeyError) (mk1 .LookupError) h1 none .skip .skip)),
+  ("tryE.hn", fun h => do
+      let h1 ← thenOk h; pure (.tryE 0 (.raise 0 .KeyError) (mk1 .LookupError true) h1 none .skip .skip)),
+  ("tryE.e", fun h => do
+      let b ← okS; let h1 ← okS; let o ← thenOk h; pure (.tryE 0 b (mk1 .Exception) h1 none .skip o)),
+  ("with", fun h => do let i ← cmProbe []; let b ← thenOk h; pure (.withS 0 i b)),
+  ("withT", fun h => do let i ← cmProbe [.bool true, .bool true]; let b ← thenOk h; pure (.withS 0 i b)),
+  ("withL", fun h => do let i ← cmProbe [.int 9, .int 9]; let b ← thenOk h; pure (.withS 0 i b)),
+  ("ifT", fun h => do let i ← evProbe [.val 1, .val 1]; let b ← thenOk h; let o ← okS; pure (.ifS 0 i b o))
+]
+
+def finLeaves : List (String × G Stmt) := [
+  ("ok", okS),
+  ("continue", pure (.cont 0)),
+  ("break", pure (.brk 0)),
+  ("return", do let i ← evProbe [.val 9, .val 10]; pure (.ret 0 i)),
+  ("raise", pure (.raise 0 .OverflowError)),
+  ("yield", do let i ← evProbe [.val 5, .val 6]; pure (.yieldS 0 i)),
+  ("handled", do let a ← okS; pure (.tryE 0 (.raise 0 .ValueError) (mk1 .ValueError) a none .skip .skip)),
+  ("evRaises2nd", do let i ← evProbe [.val 1, .raise .ZeroDivisionError]; pure (.ev 0 i))
+]
+
+/-- the statements that are left: (name, parked leaf P, finally body FIN) ↦ statement -/
+def parkCtxs : List (String × (G Stmt → G Stmt → G Stmt)) := [
+  ("F", fun p fin => do let b ← thenOk p; let f ← fin; pure (.tryF 0 b f)),
+  ("FF.in", fun p fin => do let b ← p; let f ← fin; let f2 ← okS; pure (.tryF 0 (.tryF 0 b f) f2)),
+  ("FF.out", fun p fin => do let b ← p; let f1 ← okS; let f ← fin; pure (.tryF 0 (.tryF 0 b f1) f)),
+  ("WF", fun p fin => do let i ← cmProbe []; let b ← p; let f ← fin; pure (.withS 0 i (.tryF 0 b f))),
+  ("FW", fun p fin => do let i ← cmProbe []; let b ← thenOk p; let f ← fin; pure (.tryF 0 (.withS 0 i b) f)),
+  ("FWL", fun p fin => do let i ← cmProbe [.int 9]; let b ← p; let f ← fin; pure (.tryF 0 (.withS 0 i b) f)),
+  ("EF", fun p fin => do
+      let b ← thenOk p; let h1 ← okS; let o ← okS; let f ← fin
+      pure (.tryF 0 (.tryE 0 b (mk1 .KeyError) h1 none .skip o) f)),
+  ("EF.else", fun p fin => do
+      let b ← okS; let h1 ← okS; let o ← p; let f ← fin
+      pure (.tryF 0 (.tryE 0 b (mk1 .KeyError) h1 none .skip o) f)),
+  ("HF", fun p fin => do
+      let h1 ← p; let f ← fin
+      pure (.tryF 0 (.tryE 0 (.raise 0 .KeyError) (mk1 .KeyError true) h1 none .skip .skip) f)),
+  ("FE", fun p fin => do
+      let b ← p; let f ← fin; let h1 ← okS
+      pure (.tryE 0 (.tryF 0 b f) (mk1 .ArithmeticError) h1 none .skip .skip))
+]
+
+def parkLeaves : List (String × G Stmt) := [
+  ("return", do let i ← evProbe [.val 7, .val 8, .val 11]; pure (.ret 0 i)),
+  ("continue", pure (.cont 0)),
+  ("break", pure (.brk 0)),
+  ("raise", pure (.raise 0 .IndexError)),
+  ("yield", do let i ← evProbe [.val 3, .val 3, .val 3]; pure (.yieldS 0 i)),
+  ("ok", okS)
+]
+
+def outerCtxs : List (String × (G Stmt → G Stmt)) := [
+  ("fn", fun h => thenOk h),
+  ("for", fun h => do let i ← itProbe 2; let b ← thenOk h; let o ← okS; let a ← okS; pure (.seq (.forS 0 i b o) a)),
+  ("while", fun h => do
+      let i ← evProbe [.val 1, .val 1, .val 0]; let b ← thenOk h; let o ← okS; pure (.whileS 0 i b o)),
+  ("gfor", fun h => do
+      -- generator variant: the frame has already been suspended and resumed when the reason is parked
+      let y ← evProbe [.val 12]; let i ← itProbe 2; let b ← thenOk h; pure (.seq (.yieldS 0 y) (.forS 0 i b .skip)))
+]
+
+/-- finally bodies: `path` = the names of the contexts from the outside in -/
+def finBody (path : List Nat) (leaf : Nat) : String × G Stmt :=
+  let (ln, l) := finLeaves[leaf % finLeaves.length]!
+  path.foldr (fun k (acc : String × G Stmt) =>
+      let (cn, c) := finCtxs[k % finCtxs.length]!
+      (cn ++ "/" ++ acc.1, c acc.2))
+    (ln, l)
+
+def compositeAt (o pc p : Nat) (path : List Nat) (leaf : Nat) : Case :=
+  let (on, oc) := outerCtxs[o % outerCtxs.length]!
+  let (pn, pcx) := parkCtxs[pc % parkCtxs.length]!
+  let (ln, lf) := parkLeaves[p % parkLeaves.length]!
+  let (fname, fin) := finBody path leaf
+  progCase s!"c{path.length}:{on}/{pn}/{ln}|{fname}" (oc (pcx lf fin)) ["nt"]
+
+/-- all finally bodies with exactly `d` contexts above the leaf -/
+def finPaths : Nat → List (List Nat)
+  | 0 => [[]]
+  | d+1 => (List.range finCtxs.length).flatMap fun k => (finPaths d).map fun r => k :: r
 
 /-! exception matching -/
 
@@ -539,6 +699,33 @@ def genMain (tier : String) (seed : Nat) : IO Unit := do
   emit (progCase "x:wrapped3Reraise" (pure (.tryE 0 (.raise 0 .KeyError) (mk1 .LookupError true) (.reraise 0) none .skip .skip)) ["nt"] 3)
   emit (progCase "x:wrapped2Return" (do let i ← evProbe [.val 5]; pure (.ret 0 i)) ["nt"] 2)
   for c in depth2 do emit c
+  -- composite family: every outer × park context × parked leaf × finally body with 0 or 1 context above its leaf
+  for o in [0:outerCtxs.length] do
+    for pc in [0:parkCtxs.length] do
+      for p in [0:parkLeaves.length] do
+        for d in [0:2] do
+          for path in finPaths d do
+            for l in [0:finLeaves.length] do
+              emit (compositeAt o pc p path l)
+  -- finally bodies with two contexts above the leaf (tree depth 4 and more): complete in the thorough tier
+  -- for the park contexts F / FF.in / WF / EF in every outer context, seeded samples of everything otherwise
+  if tier == "thorough" then
+    for o in [0:outerCtxs.length] do
+      for pc in [0, 1, 3, 6] do
+        for p in [0:parkLeaves.length] do
+          for path in finPaths 2 do
+            for l in [0:finLeaves.length] do
+              emit (compositeAt o pc p path l)
+  else
+    for _ in [0:7000] do
+      let (r1, o) := r.nat outerCtxs.length
+      let (r2, pc) := r1.nat parkCtxs.length
+      let (r3, p) := r2.nat parkLeaves.length
+      let (r4, k1) := r3.nat finCtxs.length
+      let (r5, k2) := r4.nat finCtxs.length
+      let (r6, l) := r5.nat finLeaves.length
+      r := r6
+      emit (compositeAt o pc p [k1, k2] l)
   if tier == "thorough" then
     let n := contexts.length
     for i in [0:n] do
